@@ -8,7 +8,9 @@ open PP
 def handlers : List (List Sexp → Option Sexp) :=
   [ Driver.lineColHandle,
     Driver.parseHandle,
-    Driver.diagramHandle ]
+    Driver.diagramHandle,
+    Driver.trimArityHandle,
+    Driver.actionGateHandle ]
 
 def dispatch (line : String) : String :=
   match Sexp.parseAll line with
